@@ -63,18 +63,55 @@ pub fn check(r: &RunResult, rep: &mut Report) {
 	let certs = &w.plan.config.certificates;
 	for ca in w.cas.iter() {
 		// endpoints pointing to this CA, and the certificates using them
-		let eps: Vec<&str> = w.plan.config.endpoints.iter().filter(|e| e.ca == ca.idx).map(|e| e.name.as_str()).collect();
+		let eps: Vec<&str> = w
+			.plan
+			.config
+			.endpoints
+			.iter()
+			.filter(|e| e.ca == ca.idx)
+			.map(|e| e.name.as_str())
+			.collect();
 		for o in ca.orders.iter() {
 			rep.nontrivial = true;
 			rep.probe("c01.orders", 1);
-			let got: Vec<String> = o.identifiers.iter().map(|(t, v)| format!("{}:{}", t, v)).collect();
+			let got: Vec<String> = o
+				.identifiers
+				.iter()
+				.map(|(t, v)| format!("{}:{}", t, v))
+				.collect();
 			let cidx = match o.cert {
 				Some(i) if eps.contains(&certs[i].endpoint.as_str()) => i,
 				_ => {
 					// which configured certificate is nearest?
-					let near = certs.iter().map(|c| expect::cert_wire_idents(c).iter().map(|(t, v)| format!("{}:{}", t, v)).collect::<Vec<_>>()).min_by_key(|e| e.iter().filter(|x| !got.contains(x)).count() + got.iter().filter(|x| !e.contains(x)).count());
-					let what = near.as_ref().map(|n| if n.len() != got.len() { "identifier_count" } else { "identifier_value" }).unwrap_or("identifier_value");
-					rep.add(Violation::new("C01", "order_identifiers_not_the_configured_ones", what, "newOrder", format!("order lists {:?}; nearest configured set {:?}", got, near)));
+					let near = certs
+						.iter()
+						.map(|c| {
+							expect::cert_wire_idents(c)
+								.iter()
+								.map(|(t, v)| format!("{}:{}", t, v))
+								.collect::<Vec<_>>()
+						})
+						.min_by_key(|e| {
+							e.iter().filter(|x| !got.contains(x)).count()
+								+ got.iter().filter(|x| !e.contains(x)).count()
+						});
+					let what = near
+						.as_ref()
+						.map(|n| {
+							if n.len() != got.len() {
+								"identifier_count"
+							} else {
+								"identifier_value"
+							}
+						})
+						.unwrap_or("identifier_value");
+					rep.add(Violation::new(
+						"C01",
+						"order_identifiers_not_the_configured_ones",
+						what,
+						"newOrder",
+						format!("order lists {:?}; nearest configured set {:?}", got, near),
+					));
 					continue;
 				}
 			};
@@ -95,7 +132,13 @@ pub fn check(r: &RunResult, rep: &mut Report) {
 			let mut hashes: Vec<&String> = o.finalize_csrs.iter().map(|x| &x.1).collect();
 			hashes.dedup();
 			if hashes.len() > 1 {
-				rep.add(Violation::new("C01", "finalize_csr_changed_between_transmissions", "", "finalize", String::new()));
+				rep.add(Violation::new(
+					"C01",
+					"finalize_csr_changed_between_transmissions",
+					"",
+					"finalize",
+					String::new(),
+				));
 			}
 			let f = match &o.csr {
 				Some(f) => f,
@@ -103,20 +146,62 @@ pub fn check(r: &RunResult, rep: &mut Report) {
 			};
 			rep.probe("c01.csrs", 1);
 			if !f.ok || !f.self_sig_ok {
-				rep.add(Violation::new("C01", "csr_invalid", if f.ok { "self_signature" } else { "unparseable" }, "finalize", f.problem.clone().unwrap_or_default()));
+				rep.add(Violation::new(
+					"C01",
+					"csr_invalid",
+					if f.ok {
+						"self_signature"
+					} else {
+						"unparseable"
+					},
+					"finalize",
+					f.problem.clone().unwrap_or_default(),
+				));
 				continue;
 			}
-			let exp_dns = sorted(exp.iter().filter(|(t, _)| t == "dns").map(|(_, v)| v.clone()).collect());
-			let exp_ip = sorted(exp.iter().filter(|(t, _)| t == "ip").map(|(_, v)| v.clone()).collect());
-			if sorted(f.dns.clone()) != exp_dns || sorted(f.ips.clone()) != exp_ip || f.other_extensions != 0 {
-				rep.add(Violation::new("C01", "csr_san_mismatch", "", "finalize", format!("CSR SAN dns={:?} ip={:?} other={} expected dns={:?} ip={:?}", f.dns, f.ips, f.other_extensions, exp_dns, exp_ip)));
+			let exp_dns = sorted(
+				exp.iter()
+					.filter(|(t, _)| t == "dns")
+					.map(|(_, v)| v.clone())
+					.collect(),
+			);
+			let exp_ip = sorted(
+				exp.iter()
+					.filter(|(t, _)| t == "ip")
+					.map(|(_, v)| v.clone())
+					.collect(),
+			);
+			if sorted(f.dns.clone()) != exp_dns
+				|| sorted(f.ips.clone()) != exp_ip
+				|| f.other_extensions != 0
+			{
+				rep.add(Violation::new(
+					"C01",
+					"csr_san_mismatch",
+					"",
+					"finalize",
+					format!(
+						"CSR SAN dns={:?} ip={:?} other={} expected dns={:?} ip={:?}",
+						f.dns, f.ips, f.other_extensions, exp_dns, exp_ip
+					),
+				));
 			}
-			let mut exp_subj: Vec<(String, String)> = c.subject_attributes.iter().filter_map(|(k, v)| subject_short_name(k).map(|s| (s.to_string(), v.clone()))).collect();
+			let mut exp_subj: Vec<(String, String)> = c
+				.subject_attributes
+				.iter()
+				.filter_map(|(k, v)| subject_short_name(k).map(|s| (s.to_string(), v.clone())))
+				.collect();
 			exp_subj.sort();
 			let mut got_subj = f.subject.clone();
 			got_subj.sort();
 			if exp_subj != got_subj {
-				rep.add(Violation::new("C01", "csr_subject_mismatch", "", "finalize", format!("CSR subject {:?}, configured {:?}", got_subj, exp_subj)));
+				rep.add(Violation::new(
+					"C01",
+					"csr_subject_mismatch",
+					"",
+					"finalize",
+					format!("CSR subject {:?}, configured {:?}", got_subj, exp_subj),
+				));
 			}
 			if !exp_subj.is_empty() {
 				rep.probe("c01.csrs_with_subject_attributes", 1);
@@ -125,14 +210,35 @@ pub fn check(r: &RunResult, rep: &mut Report) {
 			let got_kt = key_type_of_spki(&f.pubkey_der);
 			// with kp_reuse an existing key of whatever type is reused by design: the statement only
 			// ties the CSR key to the stored key, so the configured type is demanded for fresh keys only
-			let reused_foreign = c.kp_reuse == Some(true) && w.plan.world.pre_files.iter().any(|p| p.target == format!("pk:{}", cidx));
+			let reused_foreign = c.kp_reuse == Some(true)
+				&& w.plan
+					.world
+					.pre_files
+					.iter()
+					.any(|p| p.target == format!("pk:{}", cidx));
 			if got_kt != kt && !reused_foreign {
-				rep.add(Violation::new("C01", "csr_key_type", "", "finalize", format!("CSR key is {}, configured {}", got_kt, kt)));
+				rep.add(Violation::new(
+					"C01",
+					"csr_key_type",
+					"",
+					"finalize",
+					format!("CSR key is {}, configured {}", got_kt, kt),
+				));
 			}
 			rep.probe(&format!("c01.key.{}", got_kt), 1);
-			let exp_digest = if got_kt.starts_with("ed") { "none".to_string() } else { c.csr_digest.clone().unwrap_or_else(|| "sha256".into()) };
+			let exp_digest = if got_kt.starts_with("ed") {
+				"none".to_string()
+			} else {
+				c.csr_digest.clone().unwrap_or_else(|| "sha256".into())
+			};
 			if f.digest != exp_digest {
-				rep.add(Violation::new("C01", "csr_digest", "", "finalize", format!("CSR signed with {}, configured {}", f.digest, exp_digest)));
+				rep.add(Violation::new(
+					"C01",
+					"csr_digest",
+					"",
+					"finalize",
+					format!("CSR signed with {}, configured {}", f.digest, exp_digest),
+				));
 			}
 			rep.probe(&format!("c01.digest.{}", exp_digest), 1);
 		}
@@ -155,7 +261,11 @@ pub fn check(r: &RunResult, rep: &mut Report) {
 		let mut csr_pub = None;
 		for ca in w.cas.iter() {
 			for o in ca.orders.iter() {
-				if o.cert == Some(idx) && o.created_t >= a.begin.t && o.created_t <= end.t && !o.downloads.is_empty() {
+				if o.cert == Some(idx)
+					&& o.created_t >= a.begin.t
+					&& o.created_t <= end.t
+					&& !o.downloads.is_empty()
+				{
 					csr_pub = o.csr.as_ref().map(|c| c.pubkey_der.clone());
 				}
 			}
@@ -163,15 +273,31 @@ pub fn check(r: &RunResult, rep: &mut Report) {
 		if let Some(p) = csr_pub {
 			rep.probe("c01.success_key_checked", 1);
 			if !snap.pk_parses || snap.pk_pub != p {
-				rep.add(Violation::new("C01", "stored_key_is_not_the_csr_key", "", "", format!("certificate {}", a.cert)));
+				rep.add(Violation::new(
+					"C01",
+					"stored_key_is_not_the_csr_key",
+					"",
+					"",
+					format!("certificate {}", a.cert),
+				));
 			}
 			let kp = w.plan.config.certificates[idx].kp_reuse == Some(true);
 			if kp {
 				if let Ev::AttemptBegin { snap: b, .. } = &a.begin.ev {
-					if b.pk_parses && super::c01::key_type_of_spki(&b.pk_pub) == super::super::toml_emit::cert_key_type(&w.plan.config.certificates[idx]) {
+					if b.pk_parses
+						&& super::c01::key_type_of_spki(&b.pk_pub)
+							== super::super::toml_emit::cert_key_type(
+								&w.plan.config.certificates[idx],
+							) {
 						rep.probe("c01.kp_reuse_with_usable_key", 1);
 						if b.pk_pub != p {
-							rep.add(Violation::new("C01", "kp_reuse_ignored_usable_key", "", "", String::new()));
+							rep.add(Violation::new(
+								"C01",
+								"kp_reuse_ignored_usable_key",
+								"",
+								"",
+								String::new(),
+							));
 						}
 					} else if b.pk_present {
 						rep.probe("c01.kp_reuse_with_unusable_key_file", 1);
